@@ -260,6 +260,19 @@ fn check_program(base: &Xstate, src: &str, with_input: bool, stack_limit: Option
             Err(p) => return Err(("panic:compile-rejected".into(), String::new(), p)),
         }
     }
+    // switching recording on while it is on changes nothing (in particular it keeps the history)
+    if n >= 1 {
+        let mut y = replay_to_end.clone();
+        let before = project(&y.verif_dump_light(), &DROP);
+        y.set_recording_enabled(true);
+        let after = project(&y.verif_dump_light(), &DROP);
+        let r = guarded(|| y.rnext());
+        let pd = project(&y.verif_dump_light(), &DROP);
+        st.transitions += 2;
+        if after != before || !matches!(r, Ok(Ok(()))) || pd != trace[n - 1] {
+            return Err(("recording-enabled-again-changes-history".into(), "EB".into(), format!("set_recording_enabled(true) at the end of a recorded history of {} steps, then rnext: {:?}; the state is{} the one of position {}", n, r.map(|r| r.map_err(|e| err_kind(&e))), if pd == trace[n - 1] { "" } else { " not" }, n - 1)));
+        }
+    }
     // the step that failed: whatever it did before failing is undone by stepping back; the rewind passes
     // through recorded states only, in order, and reaches the start
     if let Some(mut y) = after_failure {
